@@ -24,7 +24,7 @@ const (
 	c06MaxBatch = 10
 )
 
-var c06EntryName = [...]string{"Eval(dfr.Run())", "exported dfr.Run", "Eval(dfr.RunRaw())", "EvalWithContext(dfr.RunRaw())", "Compile+Execute(dfr.RunRaw())", "Eval(var v = dfr.RunRaw())", "Eval(import of a source package whose init calls dfr.RunRaw())", "EvalPath(directory of a main package calling dfr.RunRaw())"}
+var c06EntryName = [...]string{"Eval(dfr.Run())", "exported dfr.Run", "Eval(dfr.RunRaw())", "EvalWithContext(dfr.RunRaw())", "Compile+Execute(dfr.RunRaw())", "Eval(var v = dfr.RunRaw())", "Eval(import of a source package whose init calls dfr.RunRaw())", "EvalPath(directory of a main package calling dfr.RunRaw())", "Eval(import of a source package whose variable initialiser calls dfr.RunRaw())"}
 
 type c06Native struct {
 	ev  map[int][]string
@@ -326,6 +326,11 @@ func RunC06(t *testing.T, tape *Tape) *Outcome {
 				name := fmt.Sprintf("dfri%d", pi)
 				fsys["_pkg/src/"+name+"/"+name+".go"] = &fstest.MapFile{Data: []byte("package " + name + "\n\nimport \"dfr\"\n\nvar R int\n\nfunc init() { R = dfr.RunRaw() }\n")}
 				evalRes, evalErr = it.Eval("import \"" + name + "\"")
+			case 8:
+				// ... through a package variable initialiser of the imported package
+				name := fmt.Sprintf("dfrv%d", pi)
+				fsys["_pkg/src/"+name+"/"+name+".go"] = &fstest.MapFile{Data: []byte("package " + name + "\n\nimport \"dfr\"\n\nvar R = dfr.RunRaw()\n\nfunc F() int { return R }\n")}
+				evalRes, evalErr = it.Eval("import \"" + name + "\"")
 			case 7:
 				// ... through the main function of a package given as a directory
 				name := fmt.Sprintf("dfrm%d", pi)
@@ -441,7 +446,7 @@ func hasNonProbe(o *Outcome) bool {
 }
 
 func entryClass(e int) string {
-	return [...]string{"eval", "exported", "eval", "eval-ctx", "execute", "eval-var-init", "eval-import-init", "evalpath-dir"}[e]
+	return [...]string{"eval", "exported", "eval", "eval-ctx", "execute", "eval-var-init", "eval-import-init", "evalpath-dir", "eval-import-var-init"}[e]
 }
 
 func faultName(ev string) string {
